@@ -72,6 +72,8 @@ package abft
 //@   loop 1 hint use wobs_eq(p, e, _range, stValidators, _k, observedCounter.already, len(stValidators.values))
 //@   loop 1 hint assert wobs(p, e, _range, stValidators, _k, len(stValidators.values)) < stValidators.cache.totalWeight*2/3 + 1
 //@   loop 1 exithint use wobs_eq(p, e, _range, stValidators, _k, observedCounter.already, len(stValidators.values)); use wobs_eq(p, e, _range, stValidators, _k + 1, observedCounter.already, len(stValidators.values))
+//@   loop 1 exithint assert observedCounter.sum >= stValidators.cache.totalWeight*2/3 + 1 ==> exists(k, 0, len(_range) + 1, wobs(p, e, _range, stValidators, k, len(stValidators.values)) >= stValidators.cache.totalWeight*2/3 + 1)
+//@   loop 1 exithint assert observedCounter.sum < stValidators.cache.totalWeight*2/3 + 1 ==> forall(kk, 0, len(_range) + 1, wobs(p, e, _range, stValidators, kk, len(stValidators.values)) < stValidators.cache.totalWeight*2/3 + 1)
 //@   hint unfold fcq(p, e, groots[f], stValidators)
 //@
 //@ // frame of the self-parent (0 if there is none)
